@@ -559,6 +559,12 @@ func (fr *frame) instr(instr ssa.Instruction, st *State) bool {
 		fr.tuples[x] = tup
 		fr.vals[x] = tup[0]
 		fr.ghostSelectSends(x, st)
+		for i, s := range x.States {
+			if s.Dir == types.RecvOnly {
+				// a receive arm: counted when it is the arm taken and a value arrived
+				fr.ghostRecv(s.Chan, and(eq(tup[0].S, fmt.Sprint(i)), tup[1].S), st)
+			}
+		}
 	case *ssa.Send:
 		if nm := fr.nameOfValue(x.Chan); nm != "" {
 			fr.mapKV = &[2]tv{{fr.val(x.X), x.X.Type()}, {fr.val(x.X), x.X.Type()}}
@@ -791,10 +797,14 @@ func (fr *frame) unop(x *ssa.UnOp, st *State) {
 		et := x.X.Type().Underlying().(*types.Chan).Elem()
 		v := vc.freshConst(fr.prefix+".recv", sortOf(et))
 		fr.assumeType(v, et, st)
+		okT := "true"
 		if x.CommaOk {
-			fr.tuples[x] = []Term{v, vc.freshConst(fr.prefix+".recvok", SBool)}
+			ok := vc.freshConst(fr.prefix+".recvok", SBool)
+			fr.tuples[x] = []Term{v, ok}
+			okT = ok.S
 		}
 		fr.vals[x] = v
+		fr.ghostRecv(x.X, okT, st)
 	default:
 		fr.vals[x] = vc.freshConst(fr.prefix+"."+x.Name(), sortOf(x.Type()))
 	}
@@ -1083,6 +1093,7 @@ func (fr *frame) goStmt(x *ssa.Go, st *State) {
 	// The spawned goroutine is not interleaved; everything it can reach is
 	// treated as modified from here on.
 	fr.havocEverything(st, true, "go "+calleeName(x.Common()))
+	fr.spawnMonitors(c, st)
 }
 
 func calleeName(c *ssa.CallCommon) string {
